@@ -177,6 +177,13 @@ class FromDAOState:
     Dictionary that marks objects as currently being processed by the `from_dao` method.
     """
 
+    keep_alive: InstanceDict = field(default_factory=dict)
+    """
+    Dictionary that prevents the converted DAOs from being garbage collected.
+    The memo is keyed by the id of the DAO, hence a DAO must not be freed (and its id reused by another DAO, e. g. by
+    the temporary parent DAOs created in `_build_base_kwargs_for_alternative_parent`) while this state is in use.
+    """
+
     def has(self, dao_obj: Any) -> bool:
         return id(dao_obj) in self.memo
 
@@ -195,6 +202,7 @@ class FromDAOState:
         """
         result = original_cls.__new__(original_cls)
         self.memo[id(dao_obj)] = result
+        self.keep_alive[id(dao_obj)] = dao_obj
         self.in_progress[id(dao_obj)] = True
         return result
 
